@@ -140,6 +140,22 @@ func installStdlib(m *Machine) {
 		}
 		return unknownCall("strings.SplitN", args), nil
 	}
+	m.Ext["strings.Cut"] = func(m *Machine, pos token.Pos, recv Value, args []Value) (Value, error) {
+		if len(args) == 2 {
+			if s, ok := args[0].(*Sym); ok {
+				if sepS, ok := args[1].(*Sym); ok {
+					if sep, ok := sepS.Concrete(); ok && sep != "" {
+						parts := symSplitN(s, sep, 2)
+						if len(parts.Elems) == 2 {
+							return Tuple{parts.Elems[0], parts.Elems[1], true}, nil
+						}
+						return Tuple{s, Lit(""), false}, nil
+					}
+				}
+			}
+		}
+		return unknownCall("strings.Cut", args), nil
+	}
 	m.Ext["strings.Join"] = func(m *Machine, pos token.Pos, recv Value, args []Value) (Value, error) {
 		if len(args) != 2 {
 			return nil, undecided(pos, "strings.Join arity")
